@@ -6,7 +6,7 @@ func init() {
 			Stubs:       []string{"tracer/metrics/logging are opaque", "actions are harness actions running a script of get/insert/remove on one contended key; the balance handler is the harness handler of harness/chain/common.go (8-byte balances)", "parent state is a map-backed state.Immutable"},
 			Assumptions: []string{"goroutines switch only at synchronisation operations: sound for data-race-free code"},
 			Outside:     []string{"this harness explores every non-preemptive schedule (all choices at blocking operations and goroutine exits); preemptive schedules are the `preempt` harness", "signature verification (C16), merkledb view/root computation, block context", "more than `txs` transactions, one action per transaction with at most `opsPerAction` operations, one contended data key plus two sponsor balance keys", "more than 2 execution cores / 2 fetch workers", "schedules beyond the preemption bound"}},
-		{Name: "preempt", Pkg: "chain", Files: []string{"chain/common.go", "chain/c01_parallel.go"}, Entry: "VerifC01Preempt", Sched: true, Preempt: [2]int{1, 2},
+		{Name: "preempt", Pkg: "chain", Files: []string{"chain/common.go", "chain/c01_parallel.go"}, Entry: "VerifC01Preempt", Sched: true, Preempt: [2]int{1, 1},
 			Stubs:       []string{"as harness executeTxs"},
 			Assumptions: []string{"goroutines switch only at synchronisation operations: sound for data-race-free code"},
 			Outside:     []string{"configurations other than: parent holds the key, first transaction writes or removes it, 2 execution cores (the full configuration space is the executeTxs harness)", "schedules beyond the preemption bound"}},
